@@ -26,7 +26,8 @@ HOSTILE_BRANCHES = [b"../../HEAD", b"a/b", b"..", b".", b"a: b", b"", b"x\\y", b
 MESSAGES = [b"first", b"fix: colon", b"two words", b"three word message", b"tab\there",
             b"line one\nline two has three words\nmore", b"  padded  ", "non-ascii üé".encode(),
             b"a: b: c", b"trailing newline\n", b"x" * 300, b"m", b"", b" ", b"\nbody only, empty subject",
-            b"subject\n\nbody after a blank line", b"ends with colon: ", b"\ttab first", b"commit abc", b"x: y\tz: w"]
+            b"subject\n\nbody after a blank line", b"ends with colon: ", b"\ttab first", b"commit abc", b"x: y\tz: w",
+            b"100% on", b"%s %d %%", b"first line\nsecond line of four words\nthird"]
 
 CONTENTS = [b"", b"a", b"hello\n", b"\x00\x01\x02", b"blob 3\x00abc", b"\xff\xfe invalid utf8 \xc3",
             b"line1\nline2\n", b"12345", b" ", b"x" * 1000]
@@ -147,9 +148,15 @@ def gen_edit(rng, st, prof):
         return Edit("delete", rng.choice(st.files))
     if st.dirs and r < 0.52:
         return Edit("rmtree", rng.choice(st.dirs))
-    if r < 0.55 and prof.get("fd_conflicts", False) and st.tracked:
+    if r < 0.58 and prof.get("fd_conflicts", False) and st.tracked:
+        # a tracked file gives way to a directory of the same name holding untracked files
         p = rng.choice(st.tracked)
-        if p in st.s.files:
+        if p in st.s.files and p.count(b"/") < 4:
+            comps = prof.get("components", COMPONENTS)
+            q = prof.setdefault("queue", [])
+            q.append(Edit("write", p + b"/" + rng.choice(comps), content(rng, prof)))
+            if rng.random() < 0.5:
+                q.append(Edit("write", p + b"/" + rng.choice(comps) + b"/" + rng.choice(comps), content(rng, prof)))
             return Edit("delete", p)
     # new file, not colliding with an existing directory or below an existing file
     for _ in range(20):
